@@ -136,3 +136,42 @@ set_op!(set_union, builtin_set_union, "setUnion", |ea, eb| ea.or(eb), ());
 set_op!(set_inter, builtin_set_inter, "setInter", |ea, eb| if eb.is_some() { ea } else { None }, ());
 //@harness name=set_diff tier=quick timeout=900 unwind=18 desc="std.setDiff: the elements of `a` whose key does not occur in `b`" bounds="|a|,|b| <= 3, elements 0..=15, keyF identity or x>>1"
 set_op!(set_diff, builtin_set_diff, "setDiff", |ea, eb| if eb.is_none() { ea } else { None }, ());
+
+// ---------------------------------------------------------------------------------------------
+// std.removeAt
+// ---------------------------------------------------------------------------------------------
+//@harness tier=quick timeout=600 desc="std.removeAt(arr, at) = [arr[i] for i != at] for every i32 `at`: an index outside 0..len leaves the array unchanged, no panic" bounds="arrays of <= 3 distinct elements, at: every i32; arrays are the slice/concatenation *model* (see lib.rs), the real views are C08"
+#[kani::proof]
+#[kani::unwind(6)]
+pub fn remove_at() {
+    use crate::remove::*;
+    let n: usize = kani::any();
+    kani::assume(n <= 3);
+    let arr = ArrValue { e: [10, 11, 12, 0], n };
+    let at: i32 = kani::any();
+    #[cfg(verif_playback)]
+    {
+        let items: Vec<String> = (0..n).map(|i| (10 + i).to_string()).collect();
+        let want: Vec<String> = (0..n).filter(|i| !(at >= 0 && *i == at as usize)).map(|i| (10 + i).to_string()).collect();
+        println!("REPLAY-INPUT: n={} at={}", n, at);
+        println!("REPLAY-JSONNET: std.removeAt([{}], {})", items.join(", "), at);
+        println!("REPLAY-EXPECT: value [{}]", want.join(","));
+        println!("REPLAY-ROLE: {}", if at < 0 { "C10.removeAt.negative_index" } else if at == i32::MAX { "C10.removeAt.index_i32_max" } else { "C10.removeAt.in_or_beyond_range" });
+    }
+    let r = builtin_remove_at(arr, at);
+    assert!(r.is_ok(), "C10.removeAt.ok removeAt of an array never fails");
+    let out = r.unwrap();
+    let hit = at >= 0 && (at as usize) < n;
+    assert!(out.n == if hit { n - 1 } else { n }, "C10.removeAt.len exactly the element at index `at` is removed (none when `at` is not an index)");
+    let mut i = 0;
+    while i < 3 {
+        if i < out.n {
+            let src = if hit && i >= at as usize { i + 1 } else { i };
+            assert!(out.e[i] == 10 + src as i16, "C10.removeAt.elements the remaining elements keep their order");
+        }
+        i += 1;
+    }
+    kani::cover!(at < 0 && n == 3, "negative index reached");
+    kani::cover!(hit && at == 1 && n == 3, "middle element removed reached");
+    kani::cover!(at == i32::MAX, "i32::MAX reached");
+}
